@@ -52,7 +52,7 @@ _Bool    nondet_bool(void);
 #define SYM_U32A(a)  do { for (size_t i_ = 0; i_ < sizeof(a)/sizeof((a)[0]); i_++) (a)[i_] = nondet_u32(); } while (0)
 #define SYM_U64A(a)  do { for (size_t i_ = 0; i_ < sizeof(a)/sizeof((a)[0]); i_++) (a)[i_] = nondet_u64(); } while (0)
 #define SYM_BYTES(p,n) do { for (size_t i_ = 0; i_ < (size_t)(n); i_++) ((uint8_t *)(p))[i_] = nondet_u8(); } while (0)
-#define SYM_VAL(v)   do { uint8_t *p_ = (uint8_t *)&(v); for (size_t i_ = 0; i_ < sizeof(v); i_++) p_[i_] = nondet_u8(); } while (0)
+#define SYM_VAL(v)   do { if (sizeof(v) == 1) (v) = nondet_u8(); else if (sizeof(v) == 2) (v) = nondet_u16(); else if (sizeof(v) == 4) (v) = nondet_u32(); else (v) = nondet_u64(); } while (0)   /* integer scalars only */
 #define ASSUME(c)         __CPROVER_assume(c)
 #ifdef WITNESS
 /* vacuity twin: same program, same assumptions; the only assertion is the one at the end,
